@@ -234,30 +234,65 @@ theorem removeType_split (t : Nat) (pre post : List LBlock) (x : LBlock)
     have hp : ¬ p.typ = t := hpre p (by simp)
     simp [removeType, hp, ih (fun b hb => hpre b (by simp [hb]))]
 
-/-- the offset given to the slot appended by remove_block: end of the (already shifted) data -/
-theorem compact_last_end (n : Nat) (bs : List LBlock) (fs : List FreeMeta) :
-    lastEnd (liveEntries (tableStart n) bs ++ freeEntries (tableStart n + (dataOf bs).length) fs) n
-    = ((tableStart n + (dataOf bs).length : Nat) : Int) := by
-  unfold lastEnd
-  cases hfs : fs.getLast? with
-  | some f =>
-    have hne : fs ≠ [] := by intro h; simp [h] at hfs
-    have : (freeEntries (tableStart n + (dataOf bs).length) fs).getLast? = some (freeEntry (tableStart n + (dataOf bs).length) f) := by
-      simp [freeEntries, List.getLast?_map, hfs]
-    rw [List.getLast?_append, this]
+theorem foldl_max_liveEntries (s : Nat) (bs : List LBlock) :
+    (liveEntries s bs).foldl (fun (m : Int) e => max m (e.off + e.size)) (s : Int) = ((s + (dataOf bs).length : Nat) : Int) := by
+  induction bs generalizing s with
+  | nil => simp [liveEntries, dataOf]
+  | cons b bs ih =>
+    have hlen : (dataOf (b :: bs)).length = b.payload.length + (dataOf bs).length := by
+      simp [dataOf, List.flatMap_cons]
+    simp only [liveEntries, List.foldl_cons, liveEntry]
+    have : max (s : Int) ((s : Int) + (b.payload.length : Int)) = ((s + b.payload.length : Nat) : Int) := by omega
+    rw [this, ih, hlen]
+    congr 1; omega
+
+theorem liveOf_layout (s e : Nat) (bs : List LBlock) (fs : List FreeMeta) (hl : ∀ b ∈ bs, b.typ ≠ 0) :
+    liveOf (liveEntries s bs ++ freeEntries e fs) = liveEntries s bs := by
+  unfold liveOf
+  rw [List.filter_append]
+  have h1 : (liveEntries s bs).filter (fun e => e.typ != 0) = liveEntries s bs := by
+    apply List.filter_eq_self.mpr
+    intro x hx
+    obtain ⟨b, hb, ht⟩ := liveEntries_typ _ _ x hx
+    simp [ht, hl b hb]
+  have h2 : (freeEntries e fs).filter (fun e => e.typ != 0) = [] := by
+    apply List.filter_eq_nil_iff.mpr
+    intro x hx
+    simp only [freeEntries, List.mem_map] at hx
+    obtain ⟨f, _, rfl⟩ := hx
     simp [freeEntry]
-  | none =>
-    have hfs' : fs = [] := by simpa using hfs
-    subst hfs'
-    simp only [freeEntries, List.map_nil, List.append_nil]
-    cases hl : (liveEntries (tableStart n) bs).getLast? with
-    | some l => simpa using liveEntries_last_end _ _ l hl
-    | none =>
-      have : bs = [] := by
-        cases bs with
-        | nil => rfl
-        | cons b bs => simp [liveEntries] at hl
-      subst this; simp [tableStart, dataOf]
+  rw [h1, h2, List.append_nil]
+
+/-- the offset given to the slot appended by remove_block: end of the (already shifted) data -/
+theorem compact_data_end (n e : Nat) (bs : List LBlock) (fs : List FreeMeta) (hl : ∀ b ∈ bs, b.typ ≠ 0) :
+    dataEnd (liveEntries (tableStart n) bs ++ freeEntries e fs) n
+    = ((tableStart n + (dataOf bs).length : Nat) : Int) := by
+  unfold dataEnd
+  rw [liveOf_layout _ _ _ _ hl]
+  have := foldl_max_liveEntries (tableStart n) bs
+  simpa [tableStart] using this
+
+/-- on entries stored before the removed block the shift is the identity, on entries stored after it it subtracts -/
+theorem shiftAfter_before (old : Entry) (es : List Entry) (h : ∀ e ∈ es, e.off ≤ old.off) : es.map (shiftAfter old) = es := by
+  induction es with
+  | nil => rfl
+  | cons x xs ih =>
+    have hx : ¬ x.off > old.off := by have := h x (by simp); omega
+    simp only [List.map_cons, shiftAfter, hx, if_false]
+    rw [show xs.map (shiftAfter old) = xs from ih (fun e he => h e (by simp [he]))]
+
+theorem shiftAfter_after (old : Entry) (es : List Entry) (h : ∀ e ∈ es, old.off + old.size ≤ e.off) (hs : 0 ≤ old.size) :
+    es.map (shiftAfter old) = es.map (fun e => { e with off := e.off - old.size }) := by
+  apply List.map_congr_left
+  intro x hx
+  have := h x hx
+  unfold shiftAfter
+  by_cases h0 : old.size = 0
+  · split
+    · rfl
+    · simp [h0]
+  · have : x.off > old.off := by omega
+    simp [this]
 
 theorem defaultComment_ok : strOk 256 defaultComment = true := by decide
 
@@ -356,14 +391,33 @@ theorem remove_sim (l : Lay) (ok : l.Ok) (t : Nat) (now : Int) (pre post : List 
     rw [hT]
     have : livePre.length = pre.length := by simp [livePre]
     rw [← this, List.take_left]
-  have hshift : (livePost ++ frees).map (fun e => { e with off := e.off - ex.size })
-      = liveEntries offx post ++ freeEntries eod' fs := by
-    have hs : ex.size = (sz : Int) := rfl
-    rw [hs, List.map_append, liveEntries_shift offx sz post, freeEntries_shift eod sz fs (by simp only [eod]; omega)]
-    have : eod - sz = eod' := by simp only [eod, eod']; omega
-    rw [this]
-  have hlast : lastEnd (livePre ++ (liveEntries offx post ++ freeEntries eod' fs)) n = (eod' : Int) := by
-    have := compact_last_end n (pre ++ post) fs
+  have hexsz : ex.size = (sz : Int) := rfl
+  have hexo : ex.off = (offx : Int) := rfl
+  have hshiftPre : livePre.map (shiftAfter ex) = livePre := by
+    apply shiftAfter_before
+    intro e he
+    have := liveEntries_range start pre e he
+    rw [hexo]; simp only [offx]; omega
+  have hshiftPost : (livePost ++ frees).map (shiftAfter ex) = liveEntries offx post ++ freeEntries eod' fs := by
+    rw [shiftAfter_after ex _ _ (by rw [hexsz]; omega)]
+    · rw [hexsz, List.map_append, liveEntries_shift offx sz post, freeEntries_shift eod sz fs (by simp only [eod]; omega)]
+      have : eod - sz = eod' := by simp only [eod, eod']; omega
+      rw [this]
+    · intro e he
+      rw [hexo, hexsz]
+      simp only [List.mem_append] at he
+      rcases he with he | he
+      · have := liveEntries_range (offx + sz) post e he
+        omega
+      · simp only [frees, freeEntries, List.mem_map] at he
+        obtain ⟨f, _, rfl⟩ := he
+        simp only [freeEntry, eod]; omega
+  have hshift : (livePre ++ (livePost ++ frees)).map (shiftAfter ex)
+      = livePre ++ (liveEntries offx post ++ freeEntries eod' fs) := by
+    rw [List.map_append, hshiftPre, hshiftPost]
+  have hlast : dataEnd (livePre ++ (liveEntries offx post ++ freeEntries eod' fs)) n = (eod' : Int) := by
+    have := compact_data_end n eod' (pre ++ post) fs (by
+      intro b hb; exact ok.live b (by simp at hb ⊢; rcases hb with h | h <;> simp [h]))
     rw [liveEntries_append] at this
     have e1 : tableStart n + (dataOf (pre ++ post)).length = eod' := by
       simp [dataOf_append, eod', offx, start]; omega
@@ -374,15 +428,16 @@ theorem remove_sim (l : Lay) (ok : l.Ok) (t : Nat) (now : Int) (pre post : List 
       ++ (dataOf pre ++ x.payload ++ dataOf post) := by
     simp only [Lay.image, hT, List.append_nil]
     simp [l0, dataOf_append, dataOf, List.flatMap_cons, List.append_assoc]
-  have hw1 : writeAt l0.image (slotPos pre.length)
-        ((liveEntries offx post ++ freeEntries eod' fs ++ [freeEntry eod' (freshMeta now)]).flatMap Entry.enc)
+  have hw1 : writeAt l0.image (slotPos 0)
+        ((livePre ++ (liveEntries offx post ++ freeEntries eod' fs ++ [freeEntry eod' (freshMeta now)])).flatMap Entry.enc)
       = hdr ++ (livePre ++ (liveEntries offx post ++ freeEntries eod' fs ++ [freeEntry eod' (freshMeta now)])).flatMap Entry.enc
         ++ (dataOf pre ++ x.payload ++ dataOf post) := by
     rw [himg]
-    have := writeAt_table hdr (dataOf pre ++ x.payload ++ dataOf post) livePre ([ex] ++ livePost ++ frees)
-      (liveEntries offx post ++ freeEntries eod' fs ++ [freeEntry eod' (freshMeta now)]) [] ok.hdr_len hvPre hvMid hvNewMid
-      (by simp [livePost, frees]; omega)
-    simpa [livePre] using this
+    have := writeAt_table hdr (dataOf pre ++ x.payload ++ dataOf post) [] (livePre ++ ([ex] ++ livePost ++ frees))
+      (livePre ++ (liveEntries offx post ++ freeEntries eod' fs ++ [freeEntry eod' (freshMeta now)])) [] ok.hdr_len
+      (by intro e he; simp at he) (TableValid.append hvPre hvMid) (TableValid.append hvPre hvNewMid)
+      (by simp [livePost, frees, livePre]; omega)
+    simpa using this
   let tbl' := (livePre ++ (liveEntries offx post ++ freeEntries eod' fs ++ [freeEntry eod' (freshMeta now)])).flatMap Entry.enc
   have htl : (hdr ++ tbl').length = start := by
     have hc := ok.count
